@@ -1,6 +1,8 @@
 package main
 
 import (
+	"fmt"
+	"os"
 	"go/token"
 	"go/types"
 	"strings"
@@ -59,5 +61,82 @@ func nilFieldDerefs(fx *Facts, fn *ssa.Function) ([]ssa.Instruction, int) {
 		}
 		out = append(out, in)
 	}
+	// field access THROUGH an optional pointer-to-struct field of an API object: obj.F.G with F *T
+	for _, in := range instrsIn(fn, func(in ssa.Instruction) bool { _, ok := in.(*ssa.FieldAddr); return ok }) {
+		outer := in.(*ssa.FieldAddr)
+		inner, ok := outer.X.(*ssa.UnOp)
+		if !ok || inner.Op != token.MUL {
+			continue
+		}
+		fa, ok := inner.X.(*ssa.FieldAddr)
+		if !ok {
+			continue
+		}
+		pt, ok := fa.X.Type().Underlying().(*types.Pointer)
+		if !ok {
+			continue
+		}
+		named, ok := pt.Elem().(*types.Named)
+		if !ok || named.Obj().Pkg() == nil {
+			continue
+		}
+		pk := named.Obj().Pkg().Path()
+		if !strings.HasPrefix(pk, "k8s.io/api/") && !strings.Contains(pk, "/pkg/apis/") {
+			continue
+		}
+		if _, isPtr := inner.Type().Underlying().(*types.Pointer); !isPtr {
+			continue
+		}
+		n++
+		key := termOf(inner).String()
+		guard := func(f Fact) bool {
+			if f.T.Op == "bin" && len(f.T.Args) == 2 && f.T.Args[0].String() == key && f.T.Args[1].isNilConst() {
+				return (f.T.Name == "!=" && f.Pol) || (f.T.Name == "==" && !f.Pol)
+			}
+			return false
+		}
+		fs := fx.FactsAt(in)
+		if _, ok := hasFact(fs, guard); ok || fs.Bottom {
+			continue
+		}
+		if guardedAtCallers(fx, fn, termOf(inner)) {
+			continue
+		}
+		out = append(out, in)
+	}
 	return out, n
+}
+
+// guardedAtCallers: the term is rooted at a parameter of an unexported function, and at every static call site of
+// that function the corresponding actual term is known to be non-nil.
+func guardedAtCallers(fx *Facts, fn *ssa.Function, t *Term) bool {
+	if rootParam(t) < 0 || fn.Object() == nil || fn.Object().Exported() || nilmapProg == nil {
+		return false
+	}
+	sites := nilmapProg.CallSites(fn)
+	if len(sites) == 0 {
+		return false
+	}
+	for _, cs := range sites {
+		if isTestdataOrMock(cs.Parent()) {
+			continue
+		}
+		want := t.subst(callActuals(cs)).String()
+		fs := fx.FactsAt(cs)
+		if fs.Bottom {
+			continue
+		}
+		if _, ok := hasFact(fs, func(f Fact) bool {
+			if f.T.Op == "bin" && len(f.T.Args) == 2 && f.T.Args[0].String() == want && f.T.Args[1].isNilConst() {
+				return (f.T.Name == "!=" && f.Pol) || (f.T.Name == "==" && !f.Pol)
+			}
+			return false
+		}); !ok {
+			if os.Getenv("KAI_DEBUG_NILFIELD") != "" {
+				fmt.Fprintf(os.Stderr, "NILFIELD lift: want %s at %s; facts %s\n", want, cs.Parent().Name(), factKeys(fs))
+			}
+			return false
+		}
+	}
+	return true
 }
